@@ -13,7 +13,7 @@ RULE = ('lines generated from the grammar SSH-<d>.<d+>-<token>[ <comments>] (tok
         'Banner.parse / Software.parse, end-to-end cases deliver 0..6 header lines then the banner from a scripted peer (CRLF or LF; in one write, cut in two inside the banner or a header line, or in 1-7 byte segments) and read the text and JSON report; '
         'a case is non-trivial when at least one generated line was parsed and every part (protocol, software, comments, flag, round trip) was compared; '
         'distinct = distinct batch / peer specifications')
-REQUIRED = {'lines_parsed': 5000, 'injected_lines': 500, 'product_lines': 300, 'e2e_runs': 20, 'e2e_protocol_1_99': 6, 'e2e_blank_first_line': 6, 'e2e_long_header_lines': 8, 'e2e_with_header': 5, 'e2e_cut_inside_a_line': 10, 'e2e_header_then_cut_banner': 4}
+REQUIRED = {'lines_parsed': 5000, 'injected_lines': 500, 'product_lines': 300, 'e2e_runs': 20, 'e2e_injected_at_end_of_line': 8, 'e2e_protocol_1_99': 6, 'e2e_blank_first_line': 6, 'e2e_long_header_lines': 8, 'e2e_with_header': 5, 'e2e_cut_inside_a_line': 10, 'e2e_header_then_cut_banner': 4}
 ASSUMPTIONS = ['comments are compared after collapsing whitespace runs to one space (the normalisation the tool documents)',
                'each character outside 32..126 is expected to be shown as one replacement character; a multi-byte UTF-8 sequence or an undecodable byte counts as one character',
                'end-to-end delivery is one TCP segment smaller than the tool\'s 2048-byte read (segmentation is C09\'s subject)']
@@ -25,6 +25,8 @@ MANIFEST = {
 TOKEN_CHARS = ''.join(chr(c) for c in range(33, 127))
 COMMENT_CHARS = TOKEN_CHARS
 INJECT = ['\x00', '\x01', '\x07', '\x08', '\x1b', '\x1f', '\x7f', '\x80', '\x9b', '\xa0', '\xe9', '\xff', '€', '�', '\U0001f600']
+# characters that are whitespace for str.strip() but not for bytes.strip(): at the end of a line they are the first thing a careless trim removes
+INJECT_END = ['\x1c', '\x1d', '\x1e', '\x1f', '\x85', '\xa0', '\u2028', '\u2003', '\u3000', '\x01', '\xfc']
 PRODUCTS = [
     ('OpenSSH_%s', 'OpenSSH', ['', 'p1', 'p2']), ('dropbear_%s', 'Dropbear SSH', ['', 'test1']), ('libssh-%s', 'libssh', ['']), ('libssh_%s', 'libssh', ['']),
     ('tinyssh_%s', 'TinySSH', None), ('PuTTY_Release_%s', 'PuTTY', None), ('RomSShell_%s', 'RomSShell', ['']), ('mpSSH_%s', 'iLO (Integrated Lights-Out) sshd', ['']), ('Cisco-%s', 'IOS/PIX sshd', ['']),
@@ -49,7 +51,14 @@ def gen_line(rng, inject=False, product=False):
     seps = [' ' * rng.choice([1, 1, 2, 3]) for _ in words]
     shown_token, shown_words = token, list(words)
     injected = False
-    if inject:
+    if inject == 'end':
+        ch = rng.choice(INJECT_END)
+        if words:
+            words[-1], shown_words[-1] = words[-1] + ch, words[-1] + '?'
+        else:
+            token, shown_token = token + ch, token + '?'
+        injected = True
+    elif inject:
         def inj(s):
             i = rng.randrange(len(s) + 1)
             ch = rng.choice(INJECT)
@@ -85,6 +94,9 @@ def cases(tier, seed):
     # servers announcing SSH-1.99 (both protocols): the same decomposition, sanitising and flagging
     for i in range(8 if tier == 'quick' else 60):
         cs.append({'kind': 'e2e', 'seed': rng.randrange(1 << 30), 'json': i % 4 == 3, 'headers': i % 3, 'eol': '\r\n', 'inject': i % 2 == 0, 'product': i % 4 < 2, 'cut': 'none', 'proto199': True})
+    # a non-printable character as the very last character of the identification line
+    for i in range(12 if tier == 'quick' else 80):
+        cs.append({'kind': 'e2e', 'seed': rng.randrange(1 << 30), 'json': i % 4 == 3, 'headers': i % 2, 'eol': '\n' if i % 3 == 0 else '\r\n', 'inject': 'end', 'product': i % 2 == 0, 'cut': 'none'})
     for i in range(8 if tier == 'quick' else 60):
         cs.append({'kind': 'e2e', 'seed': rng.randrange(1 << 30), 'json': i % 4 == 3, 'headers': i % 3, 'eol': '\n' if i % 2 == 0 else '\r\n', 'inject': False, 'product': i % 2 == 0, 'cut': ['none', 'in-banner'][(i // 2) % 2], 'blank_first': True})
     # one very long line before the banner (lengths around powers of two), half of them ending in something that looks like an identification string
@@ -208,7 +220,7 @@ def run_e2e(c):
             swl = rep.gen_value('software')
             if swl is None or (exp['product'] + ' ' + exp['version']) not in swl:  # a vendor name may precede the product
                 viol.append(_v('C16/e2e-software:' + exp['product'], 'software line does not carry product and version', line=line, got=swl))
-    return viol, {'e2e_runs': 1, 'e2e_protocol_1_99': 1 if c.get('proto199') else 0, 'e2e_blank_first_line': 1 if c.get('blank_first') else 0, 'e2e_long_header_lines': 1 if c.get('long_header') else 0, 'e2e_with_header': 1 if pre else 0, 'e2e_cut_inside_a_line': 1 if p.count('fault') else 0, 'e2e_header_then_cut_banner': 1 if pre and cut == 'in-banner' and p.count('fault') else 0}
+    return viol, {'e2e_runs': 1, 'e2e_injected_at_end_of_line': 1 if c.get('inject') == 'end' else 0, 'e2e_protocol_1_99': 1 if c.get('proto199') else 0, 'e2e_blank_first_line': 1 if c.get('blank_first') else 0, 'e2e_long_header_lines': 1 if c.get('long_header') else 0, 'e2e_with_header': 1 if pre else 0, 'e2e_cut_inside_a_line': 1 if p.count('fault') else 0, 'e2e_header_then_cut_banner': 1 if pre and cut == 'in-banner' and p.count('fault') else 0}
 
 
 def run_case(c):
